@@ -558,6 +558,15 @@ func (x *extractor) stmt(s ast.Stmt) []Item {
 				return out
 			}
 		}
+		// `err = write(a); if err == nil { err = write(b) }`: on the success path, which is the one a wire grammar
+		// describes, the second write is as unconditional as the first
+		if len(els) == 0 && y.Init == nil {
+			if be, ok := ast.Unparen(y.Cond).(*ast.BinaryExpr); ok && be.Op == token.EQL && isNilIdent(x.f, be.Y) {
+				if t := x.f.TypeOf(be.X); t != nil && isErrorType(t) {
+					return append(out, body...)
+				}
+			}
+		}
 		out = append(out, Item{Kind: itIf, Cond: exprKey(y.Cond), CondExpr: y.Cond, Body: body, Else: els, Pos: y.Pos(), Skips: endsWithContinue(y.Body)})
 		return out
 	case *ast.ForStmt:
